@@ -409,19 +409,23 @@ func c11SeqRun(seq []string) []mc.Finding {
 
 // --- a parent kind without metadata.generation: the generation sent to the hook is 0, and that is what is stored
 
-func c11PlainRun(shape string) []mc.Finding {
+func c11PlainRun(pk *sim.Kind, shape string) []mc.Finding {
 	var f []mc.Finding
-	bad := func(key, format string, a ...interface{}) {
-		f = append(f, mc.Finding{Key: "C11:" + key, Msg: fmt.Sprintf("parent kind without metadata.generation, hook status %s: ", shape) + fmt.Sprintf(format, a...)})
+	what, pns, key, wantGen := "parent kind without metadata.generation", "n1", "n1/p", int64(0)
+	if !pk.Namespaced {
+		what, pns, key, wantGen = "cluster-scoped parent", "", "p", int64(1)
 	}
-	w := newCWorld(ccOpt{parent: kit.PlainThing, children: []*sim.Kind{kit.Leaf}, generateSel: true}, false)
-	parent := kit.Obj(kit.PlainThing, "n1", "p")
+	bad := func(key, format string, a ...interface{}) {
+		f = append(f, mc.Finding{Key: "C11:" + key, Msg: fmt.Sprintf("%s, hook status %s: ", what, shape) + fmt.Sprintf(format, a...)})
+	}
+	w := newCWorld(ccOpt{parent: pk, children: []*sim.Kind{kit.Leaf}, generateSel: true}, false)
+	parent := kit.Obj(pk, pns, "p")
 	kit.Field(parent, "puid", "metadata", "uid")
 	kit.Field(parent, int64(1), "spec", "x")
 	w.Sim.Seed(parent)
 	w.DeliverAll()
 	w.Hooks.Handle("/cc/sync", world.JSON(func(req map[string]interface{}) interface{} {
-		out := kit.M{"children": kit.L{kit.Field(kit.Obj(kit.Leaf, "", "a"), "1", "spec", "v")}}
+		out := kit.M{"children": kit.L{kit.Field(kit.Obj(kit.Leaf, "n1", "a"), "1", "spec", "v")}}
 		if st := c11Status(shape); st != nil {
 			out["status"] = st
 		}
@@ -429,21 +433,21 @@ func c11PlainRun(shape string) []mc.Finding {
 	}))
 	for round := 0; round < 2; round++ {
 		w.Sim.ResetLog()
-		if err, p, stack := w.syncKey("n1/p"); err != nil || p != nil {
+		if err, p, stack := w.syncKey(key); err != nil || p != nil {
 			bad("plain:sync-error", "sync %d: %v %v %s", round, err, p, stack)
 			return f
 		}
 		w.DeliverAll()
-		if g := kit.Get(w.Hooks.Calls[len(w.Hooks.Calls)-1].Parsed, "parent", "metadata", "generation"); g != nil && g != int64(0) && g != float64(0) {
+		if g := kit.Get(w.Hooks.Calls[len(w.Hooks.Calls)-1].Parsed, "parent", "metadata", "generation"); pk.NoGeneration && g != nil && g != int64(0) && g != float64(0) {
 			bad("plain:setup", "the parent sent to the hook carries generation %v", g)
 		}
-		live := w.Sim.Get(kit.PlainThing, "n1", "p")
-		if target := c11Target(shape, 0); !reflect.DeepEqual(kit.Get(live, "status"), interface{}(target)) {
-			bad("plain:final-status", "sync %d: stored status %s, want %s (observedGeneration = the generation sent to the hook = 0)", round, kit.JSON(kit.Get(live, "status")), kit.JSON(target))
+		live := w.Sim.Get(pk, pns, "p")
+		if target := c11Target(shape, wantGen); !reflect.DeepEqual(kit.Get(live, "status"), interface{}(target)) {
+			bad("plain:final-status", "sync %d: stored status %s, want %s (observedGeneration = the generation sent to the hook = %d)", round, kit.JSON(kit.Get(live, "status")), kit.JSON(target), wantGen)
 		}
 		if round == 1 {
 			for _, r := range w.Sim.Log {
-				if r.Kind == kit.PlainThing && r.Mutating() {
+				if r.Kind == pk && r.Mutating() {
 					bad("plain:needless-write", "repeat sync: %s", r)
 				}
 			}
@@ -489,10 +493,11 @@ func TestVerifC11(t *testing.T) {
 	})
 	r3.Write()
 	r4 := mc.NewReport("C11", "no-generation")
-	mc.Product(r4, []int{len(c11HookStatus)}, func(idx int, d []int) {
-		shape := c11HookStatus[d[0]]
-		r4.Case(shape, fmt.Sprint(idx), func() []mc.Finding { return c11PlainRun(shape) })
-		r4.Outcome(c11Outcome)
+	kinds := []*sim.Kind{kit.PlainThing, kit.CThing}
+	mc.Product(r4, []int{len(c11HookStatus), len(kinds)}, func(idx int, d []int) {
+		shape, pk := c11HookStatus[d[0]], kinds[d[1]]
+		r4.Case(kit.M{"shape": shape, "parent": pk.Resource}, fmt.Sprint(idx), func() []mc.Finding { return c11PlainRun(pk, shape) })
+		r4.Outcome(c11Outcome + ":" + pk.Resource)
 		r4.Sample(shape)
 	})
 	r4.Write()
